@@ -1569,3 +1569,91 @@ func c17R14(c *Ctx, r *Report) {
 	}
 	r.Floor(rule, n, 1, "functions of map.c that update in place and may grow the table")
 }
+
+// ---- C02.R10: a cast to bool is `!= 0` in both back ends ---------------------------------------------------
+
+func init() {
+	lateInits = append(lateInits, func() {
+		props["C02"].Quick = append(props["C02"].Quick, c02R10)
+		props["C01"].Quick = append(props["C01"].Quick, c02R10)
+		props["C02"].Explanation += " (R10) both emitCast functions reach their width-changing conversion (handleIntegerCast natively, castOpcode on wasm) only across the false edge of an `isBoolType(target)` test whose branch compares the operand with zero (NOT_EQUAL)."
+	})
+}
+
+func c02R10(c *Ctx, r *Report) {
+	const rule = "C02.R10"
+	r.Describe(rule, "QBE and wasm emitCast: every path to the generic conversion (handleIntegerCast / castOpcode) crosses the false edge of isBoolType(<target type>); the true branch mentions tokens.NOT_EQUAL_TOKEN")
+	type side struct{ pkg, conv string }
+	n := 0
+	for _, sd := range []side{{pkgQBE, "(*Generator).handleIntegerCast"}, {pkgWasm, "castOpcode"}} {
+		fn := c.LookupFn(sd.pkg, "(*Generator).emitCast")
+		conv := c.LookupFn(sd.pkg, sd.conv)
+		test := c.LookupFn(sd.pkg, "isBoolType")
+		if !r.Anchor(rule, fn != nil && conv != nil, sd.pkg+" emitCast / "+sd.conv) {
+			continue
+		}
+		if test == nil {
+			r.Fail(rule, fn.Name(), "cast to bool is a comparison with zero", c.pos(fn.Decl.Pos()), "the package has no isBoolType test at all: a cast to bool takes the generic conversion, which keeps the low byte (`256 as bool` is false, `2 as bool == true` is false) where the other back end compares with zero")
+			continue
+		}
+		info := fn.Info()
+		disp := map[ast.Expr]bool{}
+		ast.Inspect(fn.Decl.Body, func(x ast.Node) bool {
+			ifs, ok := x.(*ast.IfStmt)
+			if !ok {
+				return true
+			}
+			cl, ok := ast.Unparen(ifs.Cond).(*ast.CallExpr)
+			if !ok || !isCallTo(info, cl, test.Obj) || len(cl.Args) != 1 {
+				return true
+			}
+			// the argument is the target type: c.Type, or a variable initialised from it
+			arg := ast.Unparen(cl.Args[0])
+			isTarget := false
+			if sel, ok := arg.(*ast.SelectorExpr); ok && sel.Sel.Name == "Type" {
+				isTarget = true
+			}
+			if id, ok := arg.(*ast.Ident); ok {
+				for _, d := range localDefs(fn)[info.Uses[id]] {
+					if sel, ok := ast.Unparen(d).(*ast.SelectorExpr); ok && sel.Sel.Name == "Type" {
+						isTarget = true
+					}
+				}
+			}
+			ne := false
+			ast.Inspect(ifs.Body, func(y ast.Node) bool {
+				if sel, ok := y.(*ast.SelectorExpr); ok && sel.Sel.Name == "NOT_EQUAL_TOKEN" {
+					ne = true
+				}
+				return true
+			})
+			if isTarget && ne {
+				disp[ifs.Cond] = true
+			}
+			return true
+		})
+		nT := 0
+		hits := mustFlow(c.CFG(fn), FlowSpec{
+			Gate: func(ast.Node) bool { return false },
+			EdgeGate: func(b *cfg.Block, succ int) bool {
+				cond := condOf(b)
+				return cond != nil && succ == 1 && disp[cond]
+			},
+			Target: func(nd ast.Node) bool {
+				if nodeCalls(info, nd, conv.Obj) != nil {
+					nT++
+					return true
+				}
+				return false
+			},
+		})
+		n += nT
+		where := c.pos(fn.Decl.Pos())
+		if len(hits) > 0 && hits[0].Pos.IsValid() {
+			where = c.pos(hits[0].Pos)
+		}
+		r.Check(nT > 0 && len(hits) == 0, rule, fn.Name(), "cast to bool is a comparison with zero", where,
+			"a cast whose target is bool reaches the generic width conversion: it keeps the low bits instead of comparing with zero, so `4294967296 as bool`, `0.5 as bool` and `256 as bool` are false and `2 as bool == true` is false on this back end and true on the other")
+	}
+	r.Floor(rule, n, 2, "generic conversions in the two emitCast functions")
+}
